@@ -31,6 +31,7 @@ inductive Src where
   | dc       -- `Vdc` / `Idc`
   | step     -- `Vstep` / `Istep`
   | sdom     -- `sV` / `sI`
+  | ac       -- `Vac` / `Iac` (value: the Laplace transform of the sinusoid at the point s)
 deriving DecidableEq, Repr
 
 inductive Leaf (K : Type) where
